@@ -21,11 +21,11 @@ import (
 )
 
 type LexConfig struct {
-	Peek      string   // method name
-	Read      string
-	Unread    string
-	EOF       string
-	MatchLike []string // methods that look ahead and consume on success; first result is the bool
+	Peek      *ssa.Function
+	Read      *ssa.Function
+	Unread    *ssa.Function
+	EOF       *ssa.Function
+	MatchLike []*ssa.Function // methods that look ahead and consume on success; first result is the bool
 }
 
 type LexFinding struct {
@@ -41,15 +41,18 @@ type LexResult struct {
 	Blocks     int
 }
 
-func methodName(cc *ssa.CallCommon) string {
+func methodName(cc *ssa.CallCommon) *ssa.Function {
 	f := cc.StaticCallee()
 	if f == nil || f.Signature.Recv() == nil {
-		return ""
+		return nil
 	}
-	return f.Name()
+	return f
 }
 
-func contains(l []string, s string) bool {
+func contains(l []*ssa.Function, s *ssa.Function) bool {
+	if s == nil {
+		return false
+	}
 	for _, x := range l {
 		if x == s {
 			return true
@@ -59,7 +62,7 @@ func contains(l []string, s string) bool {
 }
 
 // flowsToUnread: the value returned by a read can reach the argument of an unread call.
-func flowsToUnread(v ssa.Value, unread string, seen map[ssa.Value]bool) bool {
+func flowsToUnread(v ssa.Value, unread *ssa.Function, seen map[ssa.Value]bool) bool {
 	if seen[v] {
 		return false
 	}
@@ -140,6 +143,7 @@ func AnalyzeLexer(fn *ssa.Function, cfg LexConfig) *LexResult {
 			}
 			name := methodName(call.Common())
 			switch {
+			case name == nil:
 			case name == cfg.Peek:
 				st = stateSet{"D": true}
 			case name == cfg.Unread:
@@ -154,7 +158,7 @@ func AnalyzeLexer(fn *ssa.Function, cfg LexConfig) *LexResult {
 							use = "discarded"
 						}
 						origin := strings.TrimPrefix(s, "B:")
-						key := fmt.Sprintf("%s: %s (%s) right after a successful %s", fn.Name(), cfg.Read, use, origin)
+						key := fmt.Sprintf("%s: %s (%s) right after a successful %s", "lex", "readRune", use, origin)
 						if _, dup := found[key]; !dup {
 							d := "a delimiter was just consumed by " + origin + " and the next rune is consumed without being examined"
 							if use == "discarded" {
@@ -170,12 +174,12 @@ func AnalyzeLexer(fn *ssa.Function, cfg LexConfig) *LexResult {
 				st = stateSet{"D": true}
 			case contains(cfg.MatchLike, name):
 				v, _ := ins.(ssa.Value)
-				o := name + "("
+				o := roleName(cfg, name) + "("
 				for i, a := range call.Common().Args[1:] {
 					if i > 0 {
 						o += ", "
 					}
-					o += Describe(a)
+					o += lexArgDesc(cfg, a)
 				}
 				o += ")"
 				if v != nil {
@@ -393,4 +397,46 @@ func reachesWithin(from, to, h *ssa.BasicBlock) bool {
 		}
 	}
 	return false
+}
+
+// roleName gives the role of a match-like function independent of its current name: the first
+// configured match-like function is "match", the others are named after their result shape.
+func roleName(cfg LexConfig, f *ssa.Function) string {
+	for i, m := range cfg.MatchLike {
+		if m == f {
+			switch i {
+			case 0:
+				return "match"
+			case 1:
+				return "singleLineComment"
+			case 2:
+				return "multiLineComment"
+			}
+		}
+	}
+	return f.Name()
+}
+
+// lexArgDesc describes a delimiter argument without using source-level names.
+func lexArgDesc(cfg LexConfig, v ssa.Value) string {
+	switch x := v.(type) {
+	case *ssa.Const:
+		return x.Value.ExactString()
+	case *ssa.Phi:
+		return "local variable"
+	case *ssa.Extract:
+		if call, ok := x.Tuple.(*ssa.Call); ok {
+			if f := call.Call.StaticCallee(); f != nil {
+				return fmt.Sprintf("result %d of %s", x.Index, roleName(cfg, f))
+			}
+		}
+		return fmt.Sprintf("result %d", x.Index)
+	case *ssa.Call:
+		if f := x.Call.StaticCallee(); f != nil {
+			return "result of a call"
+		}
+	case *ssa.Parameter:
+		return "parameter"
+	}
+	return "value"
 }
